@@ -11,7 +11,8 @@ logging.getLogger("batchie").setLevel(logging.ERROR)     # Screen.single_treatme
 
 ID = "C14"
 LEVEL = "proof"
-RULE = ("kinds: tree (random op tree, depth <= 4, over 1-2 random parent screens of 0-12 rows with small name/dose/sample pools so "
+RULE = ("kinds: split_nan (NaN / inf / 0 / -0.0 planted on observed and unobserved rows: subset_observed / subset_unobserved select by the "
+        "mask alone; implementation-side predicate), tree (random op tree, depth <= 4, over 1-2 random parent screens of 0-12 rows with small name/dose/sample pools so "
         "that (sample, treatment ids) keys repeat, 1-4 plates, plate-uniform masks; leaves = Screen.subset with empty / full / random "
         "selections, subset_observed / subset_unobserved, get_plate (existing and non-existing ids), filter_dataset_to_unique_treatments "
         "on the screen; inner nodes = ScreenSubset.subset (empty / full / random inner masks), combine, invert, concat (1-3 arguments), "
@@ -593,6 +594,10 @@ def ref_parent(t):
 
 def gen(rng, tier):
     N = 1 if tier == "quick" else 10
+    for _ in range(40 * N):       # NaN / inf / 0 stored on observed and unobserved rows: the split is by the mask alone
+        sc = gen_screen(rng, n=rng.choice([2, 3, 4, 6, 8, 12]))
+        k = len(sc["rows"])
+        yield dict(kind="split_nan", screen=sc, plant=[[rng.randrange(k), rng.choice(["nan", "nan", "inf", "zero", "-zero"])] for _ in range(rng.randint(1, 3))])
     for _ in range(420 * N):
         ns = rng.choice([1, 1, 2])
         screens = [gen_screen(rng) for _ in range(ns)]
@@ -932,8 +937,43 @@ def _cmp_tree(m, i):
     return r
 
 
+def run_split_nan(desc):
+    """observed / unobserved views split the screen by its MASK, whatever the stored values are (NaN, inf, 0 on observed rows);
+    implementation-side only: NaN observations are outside the model's value type"""
+    d = dict(desc["screen"])
+    rows = [dict(r) for r in d["rows"]]
+    vals = {"nan": float("nan"), "inf": float("inf"), "zero": 0.0, "-zero": -0.0}
+    for i, tag in desc["plant"]:
+        if i < len(rows):
+            rows[i]["o"] = vals[tag]
+    d["rows"] = rows
+    s = impl_call(sl.build, d)
+    feats = ["split_nan"] + sorted({"plant_" + t for _, t in desc["plant"]})
+    if isinstance(s, ImplError) or s.size == 0:
+        return dict(wire=None, impl=None, pred=None, features=feats + ["trivial"])
+    mask = np.asarray(s.observation_mask).copy()
+    ob, un = impl_call(s.subset_observed), impl_call(s.subset_unobserved)
+    pred = None
+    for name, v, want in (("subset_observed", ob, mask), ("subset_unobserved", un, ~mask)):
+        if isinstance(v, ImplError):
+            pred = pred or "%s raised %r" % (name, v)
+        elif v is None:
+            if want.any():
+                pred = pred or "%s is None although %d row(s) have that mask value" % (name, int(want.sum()))
+        elif not np.array_equal(np.asarray(v.selection_vector), want):
+            pred = pred or "%s selects rows %r, the mask says %r (stored values planted: %r)" % (
+                name, np.where(np.asarray(v.selection_vector))[0].tolist(), np.where(want)[0].tolist(), desc["plant"])
+        elif not np.array_equal(np.asarray(v.observations), np.asarray(s.observations)[want], equal_nan=True):
+            pred = pred or "%s reports other observation values than the parent's at its rows" % name
+    if any(mask[i] for i, _ in desc["plant"] if i < len(mask)):
+        feats.append("planted_on_observed_row")
+    return dict(wire=None, impl=None, pred=pred, features=feats)
+
+
 def run(desc):
     k = desc["kind"]
+    if k == "split_nan":
+        return run_split_nan(desc)
     if k == "unique_raw":
         from batchie.common import select_unique_zipped_numpy_arrays
 
